@@ -191,6 +191,19 @@ Definition dispatch_graph (fn : Z) (args : list (list Z)) : option (list (list Z
              map (fun i => b2z (valid c true (firstn kk (skipn i whole)))) (seq 0 (S (length s)))]))
   | 53, [acc; flags] =>
       let a := chunk4 acc in Some ([0] :: removal_history flags a (accessor_to_latter_map a))
+  | 54, [k; tbl; t; vsel; bits; faster; sh; fuel] =>
+      (* composite (C02): user-defined table filter -> vertices -> coding graph -> start vertex -> encode -> window verdicts *)
+      let f := table_filter tbl in
+      let kk := natarg k in
+      Some (out_result (fun r => r)
+        (mask <- find_vertices kk f ;;
+         g <- connect_coding_graph kk mask (a1 t) ;;
+         let '(V, acc) := g in
+         let v0 := nth (Z.to_nat (a1 vsel mod Z.of_nat (length V))) V 0 in
+         e <- encode bits acc v0 (boolarg faster) 0 (opt_table sh) (natarg fuel) ;;
+         let s := fst e in
+         let whole := kmer_string kk v0 ++ s in
+         Ok [[v0]; s; map (fun i => b2z (f (firstn kk (skipn i whole)))) (seq 0 (S (length s)))]))
   | 41, [h; ms; only_last; s] => Some [[0]; [b2z (valid (dec_cfg h ms) (boolarg only_last) s)]]
   | 42, [h; ms] => Some [[0]; [b2z (ctor_accepts (dec_cfg h ms))]]
   | 43, [k; h; ms] => Some (out_result (fun l => [l]) (find_vertices (natarg k) (valid (dec_cfg h ms) true)))
